@@ -54,10 +54,15 @@ def gen_case(rng, tier):
         # static allocation: buffers allocated late / freed early so that the allocator hands the same address out twice
         prof.update(streams=False, multiblock=False, late_allocs=True, n_allocs=rng.choice([5, 6, 7] if prof.get("retire_picked") else [3, 4, 5]), p_dealloc=rng.choice([0.0, 0.0, 0.4]))
         prof["top_stmts"] = rng.randint(3, 8)
+    if variant in "CD" and rng.random() < 0.3:
+        prof["loop_allocs"] = 0.6  # a tile buffer allocated inside a loop body (one fixed address with static allocation)
+        prof["w_for"], prof["max_depth"] = max(prof["w_for"], 3), max(prof["max_depth"], 1)
     ast = B.BufGen(rng, prof).program()
     envs = [B.gen_env(rng, zero_trips=prof["zero_trips"]) for _ in range(K_ENVS[tier])]
     envs[0]["stall"] = False
     case = {"ast": ast, "envs": envs, "variant": variant}
+    if prof.get("loop_allocs"):
+        case["alloc_mode"] = "static"
     if variant in "BD" and rng.random() < 0.5:
         case["to_func"] = True
     return case
@@ -87,6 +92,11 @@ def oplog_key(log, all_cores=None):
 STATIC = "insert-sync-barrier,memref-to-snax,canonicalize,snax-allocate{mode=minimalloc},insert-sync-barrier"
 
 
+def static_spec(case):
+    """allocations inside loop bodies are only placed by the static mode (minimalloc looks at the top level of a function)"""
+    return STATIC.replace("minimalloc", "static") if case.get("alloc_mode") == "static" else STATIC
+
+
 def same_or_undef(ref_val, sub_val):
     return is_undef(ref_val) or ref_val == sub_val
 
@@ -114,7 +124,7 @@ def execute(case):
     static = case["variant"] in ("C", "D")
     try:
         P = compile_variant(src, None)
-        S = compile_variant(src, STATIC if static else "insert-sync-barrier")
+        S = compile_variant(src, static_spec(case) if static else "insert-sync-barrier")
     except Rejected as r:
         out["status"] = "rejected"
         out["rejected"] = f"{r.stage}:{r.cls}"
@@ -135,7 +145,7 @@ def execute(case):
             if n not in compiled_b:
                 try:
                     # every other environment also runs snax-to-func (barriers become calls, deallocs disappear)
-                    compiled_b[n] = compile_variant(src, f"{STATIC if static else 'insert-sync-barrier'},dispatch-regions{{nb_cores={n}}}" + (",snax-to-func" if case.get("to_func") else ""))
+                    compiled_b[n] = compile_variant(src, f"{static_spec(case) if static else 'insert-sync-barrier'},dispatch-regions{{nb_cores={n}}}" + (",snax-to-func" if case.get("to_func") else ""))
                 except Rejected as r:
                     out["status"] = "rejected"
                     out["rejected"] = f"{r.stage}:{r.cls}"
